@@ -32,6 +32,8 @@ type C05Case struct {
 	NSess int     `json:"nsess"`
 	Ops   []C05Op `json:"ops"`
 	MW    int     `json:"mw,omitempty"` // number of pass-through middlewares configured on the server (0..2)
+	// IDBase: the server has already issued this many requests of its own (its id counter starts here)
+	IDBase int64 `json:"idbase,omitempty"`
 }
 
 func genC05(t *rapid.T) C05Case {
@@ -41,6 +43,7 @@ func genC05(t *rapid.T) C05Case {
 		c.NSess = 1
 	}
 	c.MW = rapid.SampledFrom([]int{0, 0, 1, 2}).Draw(t, "mw")
+	c.IDBase = rapid.SampledFrom(c01IDBases).Draw(t, "idbase")
 	n := rapid.IntRange(1, 12).Draw(t, "nops")
 	for i := 0; i < n; i++ {
 		ops := []string{"notify", "notify", "notify", "broadcast", "filtered", "roots", "roots", "rootspair", "close", "reopen", "burst"}
@@ -153,6 +156,9 @@ func execC05(c C05Case) *Failure {
 	}
 	cw.w = NewWorld(modes[c.Kind], RegSpec{}, wo)
 	w := cw.w
+	if c.IDBase > 0 {
+		mcp.VerifSetServerRequestCounter(serverOf(w), c.IDBase)
+	}
 	if w.unix != nil {
 		// the legacy world starts a unix server by default; this property drives the handler in-process
 	}
